@@ -51,6 +51,9 @@ class Prop:
 def load_prop(pid):
     sys.path.insert(0, ROOT) if ROOT not in sys.path else None
     mod = importlib.import_module('props.' + pid)
+    # the level written to the evidence is the one claimed in MANIFEST.json (generated from the same dictionary)
+    mod.PROP.level = mod.MANIFEST.get('category', mod.PROP.level)
+    mod.PROP.manifest_note = mod.MANIFEST.get('note', '')
     return mod.PROP
 
 
@@ -356,7 +359,8 @@ def run_property(pid, tier='quick', update_ledger=False, verbose=False):
     level = prop.level if (n_dis == n_obl and n_obl > 0) else 'other'
     expl = prop.explanation
     if level == 'other' and not expl:
-        expl = 'not every obligation is discharged'
+        expl = ('not every obligation is discharged' if n_dis != n_obl else
+                'all obligations discharged; claimed below proof level: ' + (getattr(prop, 'manifest_note', '') or 'see MANIFEST.json level_note'))
     if refuted_known:
         expl = (expl + ' ' if expl else '') + ('%d obligation(s) are refuted only inside recorded known-finding regions: %s'
                                               % (len(refuted_known), ', '.join(refuted_known)))
